@@ -771,7 +771,7 @@ class MonoGraph:
 #   ('bin', op, a, b) ('un', op, a) ('cast', kind, a, to_ty_s)
 #   ('agg', adt_path, variant, {field: expr}) ('tuple', [..]) ('array', [..]) ('closure', path, [..])
 #   ('field', base, name, variant) ('as', base, variant) ('index', base, idx) ('cindex', base, i, from_end)
-#   ('discr', base) ('phi', [..]) ('cycle',) ('undef', l) ('other', text)
+#   ('discr', base) ('phi', [..]) ('cycle',) ('undef', l) ('other', text) ('static', path)
 # References and dereferences are transparent.
 
 TRANSPARENT_CALLS = re.compile(
@@ -838,6 +838,8 @@ def fn_expr_operand(fn, op, depth=14, seen=frozenset()):
     if k is not None:
         if "fn" in k:
             return ("fnconst", callee_path(k["fn"]))
+        if "static" in k:
+            return ("static", k["static"])
         for key in ("str", "int", "float"):
             if key in k:
                 v = k[key]
